@@ -395,6 +395,9 @@ func c13CLI(c *Ctx, dict []string) {
 	}{"ZZ-with-encryption", Flags{R: "ZZ", Y: true}}, struct {
 		name string
 		f    Flags
+	}{"ZZ-with-encryption-under-a-key-generated-by-the-run", Flags{R: "ZZ", Y: true, Key: []byte("fresh")}}, struct {
+		name string
+		f    Flags
 	}{"X-with-numbers-booleans-ips", Flags{R: "X", N: true, B: true, I: true}})...) {
 		f := rp.f
 		if mode == 0 {
@@ -402,7 +405,12 @@ func c13CLI(c *Ctx, dict []string) {
 		} else {
 			f.F = []string{"dbq.cq"}
 		}
-		args := append([]string{"redact", inPath}, f.CLIArgs(writeKeyFile(dir))...)
+		keyPath := writeKeyFile(dir)
+		if f.Y && f.Key != nil {
+			keyPath = filepath.Join(dir, fmt.Sprintf("fresh-%d.key", mode)) // absent: the run generates its own key
+			os.Remove(keyPath)
+		}
+		args := append([]string{"redact", inPath}, f.CLIArgs(keyPath)...)
 		if f.Y {
 			args = append(args, "--outputFile", filepath.Join(dir, "out.log"))
 		}
@@ -419,7 +427,11 @@ func c13CLI(c *Ctx, dict []string) {
 			c.Violate("cli:line-count", fmt.Sprintf("CLI emitted %d lines for %d input lines", len(outLines), len(names)), 0, map[string]any{"kind": "cli13", "mode": mode}, nil)
 			continue
 		}
-		f.Apply()
+		// the expected pseudonym is computed WITHOUT encryption set up: a pseudonym depends on the name and the replacement
+		// text only, not on --encrypt or on which key the run happens to use
+		fe := f
+		fe.Y = false
+		fe.Apply()
 		for i, n := range names {
 			c.Eval(1)
 			j, err := ParseJSON([]byte(outLines[i]))
